@@ -92,8 +92,22 @@ def seeded(ids):
             print(sid, meta["property"], [(r["property"], r["exit"], r["violations"]) for r in res], flush=True)
         finally:
             restore()
-    json.dump(out, open(os.path.join(base, "RESULTS.json"), "w"), indent=1)
-    return 0
+    # merge with the results of earlier invocations: an entry is replaced only by a newer run of the same change
+    path = os.path.join(base, "RESULTS.json")
+    merged = {}
+    if os.path.exists(path):
+        try:
+            merged = {o["id"]: o for o in json.load(open(path))}
+        except Exception:
+            merged = {}
+    for o in out:
+        o["run_at"] = time.strftime("%Y-%m-%dT%H:%M:%SZ", time.gmtime())
+        merged[o["id"]] = o
+    json.dump([merged[k] for k in sorted(merged)], open(path, "w"), indent=1)
+    missed = [o["id"] for o in out if not o.get("benign") and ("error" in o or o["checks"][0]["exit"] != 1)]
+    alarms = [o["id"] for o in out if o.get("benign") and ("error" in o or any(r["exit"] != 0 for r in o["checks"]))]
+    print("seeded: %d run, missed %s, benign alarms %s" % (len(out), missed, alarms))
+    return 1 if missed or alarms else 0
 
 
 if __name__ == "__main__":
